@@ -8,6 +8,12 @@ LEAN_MODULES = ["ShootVerif.Props.C15"]
 USES_FACTS = False
 DRIVER = "shootmodel_map"
 
+MANIFEST = dict(
+    text="Lean 4 theorems over parseCtors (parameter->field recovery composed with the C02 model of `shoot new`), makeCtorMatch with zero-value synthesis and the accessor pseudo-fields: every constructor argument is the zero literal or a justified value of a name-matched readable field, in parameter order (C15_ctor_args); no settable field is written twice, never after the constructor carried it (C15_set_once); name matching through accessors = matching of the exported twin (C15_refines_partial); 5 finding regions with witness theorems. Model tied to the code by rendering src/dest/both with unexported fields, generating real `shoot new -getset` output first, running `shoot map`, executing ToX/FromX and decoding every (unexported) leaf, plus per-leaf write counts from the generated text.",
+    note="Lean kernel + standard axioms; accessor-mode types are flat (no embedded shoot-new types); 'set at least once' and the full refinement to C05 are asserted by the correspondence only.",
+    technique="Lean 4 proof (fold invariant of makeCtorMatch, write-set invariant) + differential execution through real accessors",
+    design="5/C15")
+
 KEYS_PREFIX = ("to:", "from:", "writes:", "compile", "exit")
 DROP = ("to:nilrecv", "from:nilarg")
 
@@ -53,6 +59,11 @@ def shaped(g, rng):
     out.append(("skip-tag-accessor", sp))
     sp = mapgen.to_new(rng, g.pair(**dict(BASE, names=["ident"], kinds=["sub", "each"])), "dest", getonly=0.7, setonly=0.0)
     out.append(("ctor-only-sub", sp))
+    # every matched constructor parameter comes from a mapper method; the fields are constructor-only
+    for i in range(2):
+        sp = g.pair(**dict(BASE, names=["ident"], kinds=["funconly"], n=(2, 3), extra=0.0, flags={"way": "to"}))
+        mapgen.to_new(rng, sp, "dest", getonly=1.0, setonly=0.0, keep_exported=0.0, newmark=0.0)
+        out.append(("ctor-all-from-methods", sp))
     # both sides accessor mode, set-only fields on the source: ToX must not read them (constructor arguments included)
     for i in range(2):
         sp = g.pair(**dict(BASE, names=["ident"], kinds=["same", "conv"], flags={"way": "to"}))
